@@ -7,7 +7,7 @@ from __future__ import annotations
 
 import ast
 from fractions import Fraction
-from typing import Dict, List, Optional, Tuple
+from typing import Dict, List, Optional, Set, Tuple
 
 from gxstat.algebra import Rat, Translator, Unsupported
 from gxstat.domains import UNIT_TABLE, UT, Lit, UnitMismatch, UnitTyper, close, NONE
@@ -231,38 +231,87 @@ def check_annual_fn(ctx) -> None:
               'F5', 'annual_electricity_pumping_power/return-order', f.where, f'returns `{norm(rets[0].value) if rets else ""}`')
 
 
+def _inline_locals(f, expr: ast.AST, keep: Set[str]) -> ast.AST:
+    """Replace local names that are assigned exactly once at the top level of the function (before use) by their definition,
+    except the names in `keep`.  Purely syntactic; loop-carried or re-assigned names are left alone."""
+    from gxstat.srcmodel import clone
+    counts: Dict[str, List[ast.Assign]] = {}
+    for st in ast.walk(f.node):
+        if isinstance(st, ast.Assign) and len(st.targets) == 1 and isinstance(st.targets[0], ast.Name):
+            counts.setdefault(st.targets[0].id, []).append(st)
+        elif isinstance(st, (ast.AugAssign, ast.For)):
+            for x in ast.walk(st.target):
+                if isinstance(x, ast.Name):
+                    counts.setdefault(x.id, []).extend([None, None])
+    single = {k: v[0] for k, v in counts.items() if len(v) == 1 and v[0] is not None and v[0] in f.node.body and k not in keep}
+
+    class S(ast.NodeTransformer):
+        def __init__(self):
+            self.depth = 0
+
+        def visit_Name(self, n):
+            if isinstance(n.ctx, ast.Load) and n.id in single and self.depth < 6:
+                self.depth += 1
+                r = self.visit(clone(single[n.id].value))
+                self.depth -= 1
+                return r
+            return n
+    return ast.fix_missing_locations(S().visit(clone(expr)))
+
+
 def check_integrator(ctx) -> None:
     f = ctx.repo.method('SurfacePlant', 'integrate_time_series_slice')
     rel = f.module.rel
-    defs = {norm(s.targets[0]): s for s in f.node.body if isinstance(s, ast.Assign) and isinstance(s.targets[0], ast.Name)}
-    for k in ('slice_start_index', 'slice_end_index', '_slice', 'dx_steps', 'integral'):
-        ctx.require(k in defs, f'integrate_time_series_slice: `{k}` not found')
+    # the trapezoid call and its operands, with single-assignment locals inlined (so `hours = 8760 / steps; trapz(s, dx=hours)` is
+    # the same as writing the expression in place); a shape outside this idiom is "cannot decide", not a violation
+    trapz = [c for c in calls_in(f.node) if (dotted_name(c.func) or '') in ('np.trapz', 'np.trapezoid', 'numpy.trapz', 'numpy.trapezoid')]
+    ctx.require(len(trapz) == 1, 'integrate_time_series_slice: exactly one np.trapz call expected (integrator idiom changed)')
+    c = trapz[0]
+    ctx.require(c.args and isinstance(c.args[0], ast.Name), 'integrate_time_series_slice: np.trapz is not applied to a named slice')
+    sl_name = c.args[0].id
+    sl_defs = [s_ for s_ in f.node.body if isinstance(s_, ast.Assign) and norm(s_.targets[0]) == sl_name]
+    ctx.require(len(sl_defs) == 1, f'integrate_time_series_slice: `{sl_name}` is not defined exactly once at the top level')
+    sv = sl_defs[0].value
+    if isinstance(sv, ast.Call) and dotted_name(sv.func) in ('list', 'np.array', 'np.asarray') and len(sv.args) == 1:
+        sv = sv.args[0]
+    ctx.require(isinstance(sv, ast.Subscript) and isinstance(sv.slice, ast.Slice) and norm(sv.value) == 'series' and sv.slice.step is None
+                and sv.slice.lower is not None and sv.slice.upper is not None,
+                f'integrate_time_series_slice: `{sl_name}` is not `series[a:b]` (integrator idiom changed)')
     i, n = Rat.atom('_i'), Rat.atom('time_steps_per_year')
-    ctx.check(_tr(defs['slice_start_index'].value).equals(i * n), 'F6', 'integrate_time_series_slice/slice-start', f'{rel}:{defs["slice_start_index"].lineno}',
-              f'year slice starts at `{norm(defs["slice_start_index"].value)}`; year i starts at i x steps per year', fact='i*tspy')
-    ctx.check(_tr(defs['slice_end_index'].value).equals((i + Rat.const(1)) * n + Rat.const(1)), 'F6', 'integrate_time_series_slice/slice-end',
-              f'{rel}:{defs["slice_end_index"].lineno}',
-              f'year slice ends at `{norm(defs["slice_end_index"].value)}`; the trapezoid needs the right end point inclusive: (i+1) x steps + 1',
-              fact='(i+1)*tspy + 1')
-    ctx.check(norm(defs['_slice'].value) in ('list(series[slice_start_index:slice_end_index])', 'series[slice_start_index:slice_end_index]'), 'F6',
-              'integrate_time_series_slice/slice', f'{rel}:{defs["_slice"].lineno}', f'slice is `{norm(defs["_slice"].value)}`')
-    ctx.check(norm(defs['dx_steps'].value) == 'len(_slice) - 1', 'F6', 'integrate_time_series_slice/intervals', f'{rel}:{defs["dx_steps"].lineno}',
-              'number of intervals is not points - 1')
-    c = defs['integral'].value
-    ok = isinstance(c, ast.Call) and dotted_name(c.func) == 'np.trapz' and norm(c.args[0]) == '_slice'
-    dx = next((k.value for k in c.keywords if k.arg == 'dx'), None) if ok else None
-    ctx.check(ok and dx is not None and _tr(dx).equals(Rat.const(365 * 24) / Rat.atom('dx_steps')), 'F6', 'integrate_time_series_slice/dx-hours',
-              f'{rel}:{defs["integral"].lineno}', f'trapezoid step is `{norm(dx) if dx is not None else "?"}`; a year of 365 x 24 h is split into the '
-                                                    f'slice\'s intervals', fact='dx = 8760 / intervals [h]')
+    lo = _inline_locals(f, sv.slice.lower, {sl_name})
+    hi = _inline_locals(f, sv.slice.upper, {sl_name})
+    ctx.check(_tr(lo).equals(i * n), 'F6', 'integrate_time_series_slice/slice-start', f'{rel}:{sl_defs[0].lineno}',
+              f'year slice starts at `{norm(lo)}`; year i starts at i x steps per year', fact='i*tspy')
+    ctx.check(_tr(hi).equals((i + Rat.const(1)) * n + Rat.const(1)), 'F6', 'integrate_time_series_slice/slice-end', f'{rel}:{sl_defs[0].lineno}',
+              f'year slice ends at `{norm(hi)}`; the trapezoid needs the right end point inclusive: (i+1) x steps + 1', fact='(i+1)*tspy + 1')
+    ctx.ok('F6', 'integrate_time_series_slice/slice', f'{rel}:{sl_defs[0].lineno}', f'{sl_name} = series[a:b]')
+    dx = next((k.value for k in c.keywords if k.arg == 'dx'), None)
+    ctx.require(dx is not None, 'integrate_time_series_slice: np.trapz without dx= (integrator idiom changed)')
+    dxe = _inline_locals(f, dx, {sl_name})
+    npts = f'len({sl_name})'
+    tr = Translator(call_hook=lambda t_, nd: Rat.atom('NPTS') if norm(nd) == npts else None)
+    try:
+        dxr = tr.tr(dxe)
+    except Unsupported as e:
+        raise AnalysisError(f'integrate_time_series_slice: dx expression outside the supported algebra: {e}')
+    want = Rat.const(365 * 24) / (Rat.atom('NPTS') - Rat.const(1))
+    ctx.check(dxr.equals(want), 'F6', 'integrate_time_series_slice/dx-hours', f'{rel}:{c.lineno}',
+              f'trapezoid step is `{norm(dxe)}`; a year of 365 x 24 h is split into the slice\'s (points - 1) intervals',
+              fact='dx = 8760 / (points - 1) [h]')
+    ctx.ok('F6', 'integrate_time_series_slice/intervals', f'{rel}:{c.lineno}', 'intervals = points - 1 (part of the dx identity)')
+    defs = {norm(s_.targets[0]): s_ for s_ in f.node.body if isinstance(s_, ast.Assign) and isinstance(s_.targets[0], ast.Name)}
+    int_names = [k for k, s_ in defs.items() if s_.value is c]
+    ctx.require(len(int_names) == 1, 'integrate_time_series_slice: the np.trapz result is not bound to one local name')
+    int_name = int_names[0]
     rets = [x for x in ast.walk(f.node) if isinstance(x, ast.Return)]
     ctx.require(len(rets) == 1, 'integrate_time_series_slice: single return expected')
     r = _tr(rets[0].value)
-    ctx.check(r.equals(Rat.atom('integral') * Rat.const(1000) * Rat.atom('utilization_factor')), 'F6', 'integrate_time_series_slice/result',
+    ctx.check(r.equals(Rat.atom(int_name) * Rat.const(1000) * Rat.atom('utilization_factor')), 'F6', 'integrate_time_series_slice/result',
               f'{rel}:{rets[0].lineno}', f'annual energy is `{r.show()}`; expected integral[MW h] x 1000 x utilization factor (kWh)',
               fact='MWh * 1000 * utilization = kWh')
     # unit typing: MW * h * 1000 -> kWh
     def at(key, node):
-        if key == 'integral':
+        if key == int_name:
             dmw, smw = UNIT_TABLE['MW']
             dh, sh = UNIT_TABLE['hr']
             from gxstat.domains import dim_mul
